@@ -23,11 +23,12 @@ public:
         const int n = x.size();
         arr_cmplx r(n);
         for (int i = 0; i < n; i++) {
-            const real_t phase = 2 * pi * _freq * _phase / _fs;
+            //phase in turns, reduced modulo 1 (exact period for integer and fractional freq alike)
+            const real_t turns = std::fmod(_freq * real_t(_phase) / _fs, real_t(1));
+            const real_t phase = 2 * pi * turns;
             const cmplx_t w = {std::cos(phase), std::sin(phase)};
             r[i] = x[i] * w;
             ++_phase;
-            _phase = (_phase < _fs) ? _phase : 0;
         }
         return r;
     }
@@ -47,7 +48,7 @@ public:
 private:
     int _fs;
     real_t _freq;
-    int _phase{0};
+    long long _phase{0};   ///< sample counter
 };
 
 }   // namespace dsplib
